@@ -6,17 +6,22 @@
         forall|k: Seq<char>| #[trigger] old(domain).has(k) ==> vt_wf(old(domain).map()[k].as_type),
     ensures
         final(domain).wf(), final(domain).keys() == old(domain).keys(),
+        forall|k: Seq<char>| #[trigger] final(domain).has(k) ==> vt_wf(final(domain).map()[k].as_type),
         forall|k: Seq<char>, x: real| #[trigger] old(domain).has(k) && in_domain(old(domain).map()[k].as_type, x)
             && (self.variable_bounds.has(k) ==> contains(self.variable_bounds.map()[k], x)) ==> #[trigger] in_domain(final(domain).map()[k].as_type, x),
 @fn BoundsAnalyzer::apply_to_domain @entry
     let ghost d0 = *domain;
-    proof { lemma_box(*self); }
+    proof {
+        lemma_box(*self);
+        assert forall|j: int| 0 <= j < d0.keys().len() implies vt_wf(domain.map()[#[trigger] d0.keys()[j]].as_type) by { assert(d0.keys().contains(d0.keys()[j])); assert(d0.has(d0.keys()[j])); }
+    }
 @fn BoundsAnalyzer::apply_to_domain @loop 1
     invariant
         d0 == *old(domain), d0.wf(), domain.wf(), domain.keys() == d0.keys(), vx_n1 == d0.keys().len(), vx_i1 <= vx_n1,
         box_wf(*self), finite(self.tolerance), rv(self.tolerance) >= 0real,
         forall|k: Seq<char>| #[trigger] d0.has(k) ==> vt_wf(d0.map()[k].as_type),
         forall|j: int| vx_i1 <= j < d0.keys().len() ==> domain.map()[#[trigger] d0.keys()[j]] == d0.map()[d0.keys()[j]],
+        forall|j: int| 0 <= j < d0.keys().len() ==> vt_wf(domain.map()[#[trigger] d0.keys()[j]].as_type),
         forall|j: int| 0 <= j < vx_i1 ==> (self.variable_bounds.has(#[trigger] d0.keys()[j]) ==> pub_ok(d0.map()[d0.keys()[j]].as_type, self.variable_bounds.map()[d0.keys()[j]], domain.map()[d0.keys()[j]].as_type))
             && (!self.variable_bounds.has(d0.keys()[j]) ==> domain.map()[d0.keys()[j]].as_type == d0.map()[d0.keys()[j]].as_type),
     decreases vx_n1 - vx_i1,
@@ -60,6 +65,11 @@
     }
 @fn BoundsAnalyzer::apply_to_domain @tail 1
     proof {
+        assert forall|k: Seq<char>| #[trigger] domain.has(k) implies vt_wf(domain.map()[k].as_type) by {
+            assert(d0.keys().contains(k));
+            let j = choose|j: int| 0 <= j < d0.keys().len() && d0.keys()[j] == k;
+            assert(d0.keys()[j] == k);
+        }
         assert forall|k: Seq<char>, x: real| #[trigger] d0.has(k) && in_domain(d0.map()[k].as_type, x) && (self.variable_bounds.has(k) ==> contains(self.variable_bounds.map()[k], x))
             implies #[trigger] in_domain(domain.map()[k].as_type, x) by {
             assert(d0.keys().contains(k));
